@@ -210,6 +210,9 @@ def stage_may_blocking():
     L = lambda name, arg='0': '#[cfg(may_verif)]\ncrate::verif::label("%s", %s);' % (name, arg)
     insert_after('src/park.rs', 'self.set_timeout_handle(timeout_handle);', L('park.subscribe.timer_armed', 'Arc::as_ptr(&self.wait_co) as usize'))
     insert_after('src/park.rs', 'self.wait_co.store(co);', L('park.subscribe.stored', 'Arc::as_ptr(&self.wait_co) as usize'))
+    # the two wait-for-kernel loops of Park (first: park_timeout, second: drop)
+    insert_before('src/park.rs', 'yield_now();', L('park.wait_kernel'), count=1)
+    insert_before('src/park.rs', 'yield_now();', L('park.drop.wait_kernel'), count=1, skip=2)
     insert_before('src/scheduler.rs', 'if let Some(mut co) = c.take() {', L('timer.handler.take', 'Arc::as_ptr(&c) as usize'))
     insert_after('src/sync/spsc.rs', 'wait_co.store(Blocker::new_coroutine(co));', L('spsc.subscribe.stored'))
     insert_before('src/sync/spsc.rs', 'self.channels.store(0, Ordering::Relaxed);', L('spsc.drop_chan'))
